@@ -265,22 +265,29 @@ structure MI (g : Graph) (s : St) : Prop where
             ∃ j', j' < j ∧ g.top[j']? = some t
   cr    : ∀ j, s.mp = .create j → ∃ t, g.top[j]? = some t ∧ Ev.sub t ∈ s.tr
   mw    : ((∃ t, s.mp = .fins t) ∨ s.mp = .finished) → hasMwait s.tr
-  late  : (s.mp = .wait ∨ (∃ t, s.mp = .fins t) ∨ s.mp = .finished) → ∀ t, g.role t = .top → t < g.n →
-            s.pc t ≠ .idle
+
+/-- the command that submits a task: (task, command index) -/
+def parentOf (g : Graph) (u : Nat) : Option (Nat × Nat) :=
+  match g.role u with
+  | .top => none
+  | .child p i => some (p, i)
+  | .tbody y => some ((g.tryd y).owner, (g.tryd y).idx)
+  | .hsucc y => some ((g.tryd y).owner, (g.tryd y).idx)
+  | .hfail y => some ((g.tryd y).owner, (g.tryd y).idx)
+  | .hfin y => some ((g.tryd y).owner, (g.tryd y).idx)
 
 /-- where the submitter of a task is while the task runs: blocked in the command that submitted it -/
 def parentAt (g : Graph) (s : St) (u : Nat) : Prop :=
-  match g.role u with
-  | .top => True
-  | .child p i => s.pc p = .afterCmd i
-  | .tbody y => s.pc (g.tryd y).owner = .afterCmd (g.tryd y).idx
-  | .hsucc y => s.pc (g.tryd y).owner = .afterCmd (g.tryd y).idx
-  | .hfail y => s.pc (g.tryd y).owner = .afterCmd (g.tryd y).idx
-  | .hfin y => s.pc (g.tryd y).owner = .afterCmd (g.tryd y).idx
+  ∀ p i, parentOf g u = some (p, i) → s.pc p = .afterCmd i
 
 /-- a task that is accepted and has not closed keeps its submitter blocked -/
 def X3 (g : Graph) (s : St) : Prop :=
   ∀ u, (s.pc u).accepted = true → s.pc u ≠ .finished → parentAt g s u
+
+/-- a context with an error has a task that is still running or has closed with an error -/
+def I3 (g : Graph) (s : St) : Prop :=
+  ∀ X, s.cerr X = true → ∃ u, g.ctx u = X ∧ (s.pc u).accepted = true ∧
+    (s.pc u ≠ .finished ∨ Ev.done u false ∈ s.tr)
 
 structure Inv (g : Graph) (s : St) : Prop where
   ti : ∀ u, TIs g s u
@@ -289,5 +296,7 @@ structure Inv (g : Graph) (s : St) : Prop where
   mi : MI g s
   i2 : ∀ X, s.cerr X = true → causeIn g X s.tr ∨ causeIn g 0 s.tr
   ok : TraceOk g s.tr
+  tgr : ∀ y, s.tg y ≠ .idle → y < g.tries.length
+  i3 : I3 g s
 
 end Goat.Pipeline
